@@ -103,6 +103,14 @@ def run(repo, rep, tier):
     rep.check(oki, "R09.3", inc.qualname, "include() hands every argument "
               "on to the render function", construct="include-forwards-all",
               where=L.where(inc))
+    # a failure that comes out of a slot filler (or a macro rendered in
+    # place) has no token: the on-error handler of the macro that guards its
+    # slot must still be able to record it (C13 owns the handler)
+    from . import c13 as _c13
+    L.borrow(repo, rep, "R09.2", "C13",
+             lambda r_, p_: _c13.run(r_, p_, "quick"),
+             ("position-arity", "position-unknown-none", "token-guard"),
+             minimum=2)
     # data-metal-* is metal:* (C18 owns the conversion)
     from . import c18 as _c18
     L.borrow(repo, rep, "R09.3", "C18", _c18._keyed, ("convert-first",))
